@@ -32,6 +32,8 @@ type raceJob struct {
 	Seed       int64          `json:"seed"`        // start skew / yield perturbation
 	Transform  int            `json:"transform"`   // > 0: additionally run WithServicesTransform free-running on a project of (Transform-1) services
 	TransformE int            `json:"transform_e"` // number of failing services for it
+	SeqFirst   bool           `json:"seq_first"`   // run the loads alone BEFORE the concurrent phase (default: after, so that the
+	// concurrent loads hit a cold process: lazily filled package-level state is then first touched concurrently)
 }
 
 type mismatch struct {
@@ -148,19 +150,24 @@ func main() {
 	// ---- alone: each input loaded by itself (twice: an input whose result is not even stable alone is not compared)
 	seq := make([]string, len(job.Inputs))
 	stable := make([]bool, len(job.Inputs))
-	for i, in := range job.Inputs {
-		a := safeLoad(in.Details(roots[i]), in, roots[i])
-		b := safeLoad(in.Details(roots[i]), in, roots[i])
-		seq[i] = a
-		stable[i] = a == b
-		if !stable[i] {
-			out.Unstable = append(out.Unstable, i)
+	alone := func() {
+		for i, in := range job.Inputs {
+			a := safeLoad(in.Details(roots[i]), in, roots[i])
+			b := safeLoad(in.Details(roots[i]), in, roots[i])
+			seq[i] = a
+			stable[i] = a == b
+			if !stable[i] {
+				out.Unstable = append(out.Unstable, i)
+			}
+			cls := a
+			if j := strings.IndexByte(a, ':'); j >= 0 && strings.HasPrefix(a, "ok") {
+				cls = "ok"
+			}
+			out.Seq = append(out.Seq, shorten(cls))
 		}
-		cls := a
-		if j := strings.IndexByte(a, ':'); j >= 0 && strings.HasPrefix(a, "ok") {
-			cls = "ok"
-		}
-		out.Seq = append(out.Seq, shorten(cls))
+	}
+	if job.SeqFirst {
+		alone()
 	}
 	// ---- together
 	// one environment map handed to every load (as a caller that builds it once from os.Environ would do)
@@ -172,6 +179,11 @@ func main() {
 	}
 	var mu sync.Mutex
 	var wg sync.WaitGroup
+	type loadResult struct {
+		g, round, idx int
+		got           string
+	}
+	var results []loadResult
 	start := make(chan struct{})
 	for g, idx := range job.Assign {
 		if idx < 0 || idx >= len(job.Inputs) {
@@ -197,11 +209,7 @@ func main() {
 				got := safeLoad(d, in, roots[idx])
 				mu.Lock()
 				out.Loads++
-				if strings.HasPrefix(got, "panic:") {
-					out.Panics = append(out.Panics, shorten(got))
-				} else if stable[idx] && got != seq[idx] && len(out.Mismatches) < 5 {
-					out.Mismatches = append(out.Mismatches, mismatch{G: g, Round: r, Input: idx, Want: shorten(seq[idx]), Got: firstDiff(seq[idx], got)})
-				}
+				results = append(results, loadResult{g, r, idx, got})
 				mu.Unlock()
 			}
 		}(g, idx)
@@ -316,6 +324,18 @@ func main() {
 	}
 	close(start)
 	wg.Wait()
+	if !job.SeqFirst {
+		alone()
+	}
+	for _, r := range results {
+		if strings.HasPrefix(r.got, "panic:") {
+			if !strings.HasPrefix(seq[r.idx], "panic:") {
+				out.Panics = append(out.Panics, shorten(r.got))
+			}
+		} else if stable[r.idx] && r.got != seq[r.idx] && len(out.Mismatches) < 5 {
+			out.Mismatches = append(out.Mismatches, mismatch{G: r.g, Round: r.round, Input: r.idx, Want: shorten(seq[r.idx]), Got: firstDiff(seq[r.idx], r.got)})
+		}
+	}
 	b, _ := json.Marshal(out)
 	os.Stdout.Write(b)
 	os.Stdout.Write([]byte("\n"))
